@@ -103,6 +103,15 @@ def json_oracle(net, type_name, tree, rendered):
 		return False
 
 
+def without_present_empty(net, tree):
+	"""The value with every present-and-empty conditional array member of the top-level struct taken for absent."""
+	if not isinstance(tree, tuple):
+		return tree
+	model = net.by_name[tree[1]]
+	conditional = {field.name for field in codec.settable_fields(model) if field.is_conditional and codec.kind(field.field_type) == 'Array'}
+	return ('S', tree[1], [(name, None if name in conditional and value in (b'', []) else value) for name, value in tree[2]])
+
+
 def run_network(check, net, per_class):
 	rng = check.rng
 	generator = codec.Generator(net, rng, long_arrays=(check.tier == 'thorough'))
@@ -136,7 +145,12 @@ def run_network(check, net, per_class):
 			check.case(f'{net.name}:text', (name, codec.render(tree)))
 			json_result = limited(obj.to_json)
 			if json_result[0] == 'ok' and codec.kind(model) == 'Struct':
-				if not json_oracle(net, name, tree, json_result[1]):
+				if not json_oracle(net, name, tree, json_result[1]) and json_oracle(net, name, without_present_empty(net, tree), json_result[1]):
+					check.fail('json-omits-present-empty-conditional-member',
+						f'{net.name}.{name}: to_json() leaves out a conditional array member that is present and empty (it shows the value as if the '
+						'member were absent)',
+						{'network': net.name, 'class': name, 'value': codec.render(tree), 'json': str(json_result[1])[:600]})
+				elif not json_oracle(net, name, tree, json_result[1]):
 					check.fail(signature('json-members', name, codec.render(tree)),
 						f'{net.name}.{name}: to_json() does not show exactly the member values',
 						{'network': net.name, 'class': name, 'value': codec.render(tree), 'json': str(json_result[1])[:600]})
